@@ -16,7 +16,113 @@ add("C34", "component", "exploration",
     "Trusts that validate() is the entry point users go through; snapshots_dir is a writable scratch dir so directory validation never masks numeric checks.",
     "property-based testing (proptest), exact arithmetic oracle over generated configurations")
 
-NOT_YET = "check not built yet in this session; will be decided by property-based testing per DESIGN.md §5"
+
+SIM = 'cluster simulator: real Raft<SimT> nodes wired like NodeBuilder (BufferedRaftLog, election/replication/commit handlers, state-machine worker, server RaftMembership) over a simulated network, disk and state machine under a paused tokio clock; proptest-generated fault/operation scenarios; '
+SIMNOTE = "Trusted base: the simulated transport/disk/state machine honour the documented trait contracts (disk: page-cache vs durable image; MetaStore save durable on return); timing is virtual (paused tokio clock), so interleavings are those reachable through message delays, faults and task scheduling, not instruction-level races. tokio's select! and std HashMap ordering are not seedable: a failing scenario is saved with its full recorded history (<replay>.trace.json) because a replay may take another schedule."
+PBT = "property-based testing (proptest): "
+def sim(id, text, technique, note=""):
+    add(id, "dverif", "exploration", SIM + text, SIMNOTE + (" " + note if note else ""), PBT + technique)
+
+sim("C01", "oracle Leaders(T) <= 1 over the whole multi-incarnation message history (AppendEntries sent as leader, leader notifications). Exploration of thousands of partition/crash/restart schedules per run is the level a history property over real code admits; absence is not established.",
+    "stateful scenario generation, history invariant (at most one leader per term)")
+sim("C02", "oracle: per (node, term) at most one candidate voted for and no term regression across process-crash / power-loss / graceful restarts at arbitrary instants.",
+    "stateful scenario generation with crash injection, history invariant over votes/terms across incarnations")
+sim("C03", "oracle: a node acting as leader of term T while its own voter view has >1 members must have received granted votes from a majority of that view before; clusters bootstrapped with 1 node and expanded by join+promotion.",
+    "stateful scenario generation (membership + elections), history invariant (votes received before leading)")
+sim("C04", "oracle evaluated at every checkpoint on the real logs of all nodes: equal (index, term) implies equal payload and equal prefix (down to the purge boundaries).",
+    "stateful scenario generation, pairwise log-matching invariant on real node logs")
+sim("C05", "oracle: the committed sequence (first commit of each index by any leader) is never contradicted — no second value committed at an index, no node that held a committed entry overwrites or drops it, every later-term leader holds it.",
+    "stateful scenario generation with crashes, committed-sequence reference model")
+sim("C06", "oracle over the state machines' apply logs: per incarnation indexes are applied in order without gap or repetition, the command applied at index i is the committed one on every node, and each node's state equals the reference model folded over its applied prefix.",
+    "stateful scenario generation, differential against a reference state machine model")
+sim("C09", "oracle: at every commit-index advance of a leader, a majority of the CURRENT voter set (per the leader's membership at that instant, old/new set tolerated around config entries) durably holds the entry, and the entry at the new commit index is of the leader's term.",
+    "stateful scenario generation, quorum-counting oracle over recorded logs and acknowledgements")
+sim("C10", "oracle: per-key Wing-Gong linearizability search over acknowledged writes (required), indeterminate writes (optional) and linearizable reads including final reads after heal + restart.",
+    "stateful scenario generation, linearizability checker (per-key Wing-Gong search) as oracle")
+sim("C11", "oracle: every successful read under the linearizable policy must fit the per-key linearizability search together with the writes; scenarios biased to isolated leaders, apply lag, late acknowledgements.",
+    "stateful scenario generation, linearizability checker as oracle")
+sim("C12", "oracle: (a) with the simulator's perfect clock a LeaseRead answered by a node after another node established a higher term is a violation, (b) lease reads must fit the linearizability search. The configuration clause of C12 is decided by C34.",
+    "stateful scenario generation under a virtual clock, deposed-leader + linearizability oracles",
+    "Only the Raft-loop lease path is driven; the lock-free fast-path readers use the same ReadLease object but their thread-level races are out of reach.")
+sim("C14", "oracle: a write answered with a definite rejection (not leader / backpressure / invalid) is never found in any node's committed log or applied state.",
+    "stateful scenario generation with unique write payloads, history invariant (rejected implies never applied)")
+sim("C26", "oracle: at every instant, for every pair of nodes, any majority of node A's voter set intersects any majority of node B's voter set (joins, batch promotion, apply lag, elections during the change).",
+    "stateful scenario generation (membership changes), quorum-intersection predicate over sampled views")
+sim("C27", "oracle: learners never vote nor campaign, a join of an existing member is rejected, a join is answered only after its AddNode entry is committed; quorum math over voters only.",
+    "stateful scenario generation (joins, duplicates), history invariants over votes / join responses")
+sim("C28", "oracle: after every restart, a node's membership view equals the model = initial config + every committed membership change it had applied before the restart.",
+    "stateful scenario generation (membership + restarts), model replay of applied config changes")
+sim("C29", "oracle: a write is acknowledged only after its own entry is committed and applied on the leader, and the CAS result returned equals the outcome of applying it in log order.",
+    "stateful scenario generation, response-vs-apply-log oracle")
+sim("C30", "oracle: every client write is answered (success or definite error) within the bound once its leader steps down / its entry commits; no request is left hanging by leader changes, partial batches or step-down.",
+    "stateful scenario generation, bounded-response invariant in virtual time")
+sim("C31", "oracle: the (leader, term) notifications published by each node are monotone in term, name at most one leader per term, and only name nodes that led that term.",
+    "stateful scenario generation, history invariant over leader notifications")
+sim("C32", "bounded liveness in virtual time: after all faults stop, within 100 x election_timeout_max a probe write succeeds and every live voter applies it.",
+    "stateful scenario generation, bounded-liveness oracle under a virtual clock",
+    "Liveness is only checked as a bound in virtual time; 'eventually' beyond the bound is not claimed.")
+add("C07", "dverif", "exploration",
+    "Two engines. (1) Component: the real follower AppendEntries handler + BufferedRaftLog driven by generated leader/follower logs and scripts of held, duplicated, reordered and capped requests; oracle: commit index never exceeds min(leader_commit, last index covered by the request) and every entry at or below it equals the leader's. (2) Cluster monitor on the simulator: no non-leader commits beyond what some leader has committed and everything at/below its commit index equals the committed sequence.",
+    "Component engine trusts the generated 'Log-Matching-consistent world'; cluster monitor shares the simulator's trusted base.",
+    PBT + "generated request scripts against the real follower path with a reference log model; plus simulator history invariant")
+add("C08", "dverif", "exploration",
+    "The real ReplicationHandler::build_append_request / leader log + real follower handlers driven over generated leader logs (purge boundary, cap 1..8), peers with arbitrary next_index and matching/shorter/longer/diverging follower logs; oracle: every request carries consecutive indexes starting at prev+1 with the true prev term, and after the exchange the follower log is a prefix-consistent copy; match_index never exceeds what the follower holds.",
+    "Single leader term per case; transport is a direct call.",
+    PBT + "generated leader/follower log pairs, reference model of the expected request and resulting follower log")
+add("C19", "dverif", "exploration",
+    "Op sequences (append, conflict-aware append of every prev/overlap shape, purge, reset, election storms beyond 1024 term boundaries) on the real BufferedRaftLog; oracle: entry_term / last_log_id / first index / term-segment lookups equal a naive Vec model after every op.",
+    "MemFirst strategy on an in-memory store; disk behaviour is C18/C20.",
+    PBT + "stateful op sequences against a naive reference log model")
+add("C16", "dverif", "exploration",
+    "Real state machines (File, RocksDB) + DefaultStateMachineHandler::create_snapshot / apply_snapshot over generated logs with non-idempotent CAS bursts, TTLs, term bumps, entries applied while the snapshot is in flight; oracle: installed state + replay of the suffix equals the reference model, snapshot metadata (index, term) equals the boundary entry.",
+    "Snapshot transfer is local file copy; compression as configured by default.",
+    PBT + "generated logs and snapshot points, differential against reference KV model")
+add("C17", "dverif", "exploration",
+    "Real snapshot receiver fed generated chunk streams with drop/dup/swap/corruption/leader change/early close mutations; oracle: either the exact source snapshot is installed or the receiver state is unchanged, never a mix.",
+    "Chunks are delivered through the receiver API, not through tonic.",
+    PBT + "generated chunk-stream mutations, all-or-nothing oracle against source snapshot")
+add("C18", "dverif", "fault_enumeration",
+    "Op sequences on the real BufferedRaftLog over a simulated disk: EVERY store mutation event of every case is judged under both a process-crash and a power-loss image (plus child-process crash points on the real File/RocksDB engines); oracle on the reopened log: contiguous indexes, every entry ever covered by durable_index()/flush()==Ok present with identical content unless later truncated/purged/reset, replaced entries gone.",
+    "Real engines: process crash only (no torn writes / power loss). tokio select! order is not seedable; the oracle only uses facts of the same run.",
+    PBT + "stateful op sequences with exhaustive crash-point enumeration per case, durability oracle")
+add("C20", "dverif", "exploration",
+    "Op sequences (persist any order, truncate, replace_range, purge, reset, flush, reopen, crash inside replace_range) on FileLogStore and RocksDBLogStore against a BTreeMap reference and against each other: entry(i), ranges, last_index, purge boundary after every op and reopen.",
+    "Process crash only; index 0 and inverted ranges not generated (undocumented).",
+    PBT + "differential: two real log stores vs reference map, stateful op sequences")
+add("C21", "dverif", "fault_enumeration",
+    "1..6 save_hard_state calls on the File and RocksDB meta stores; every crash point (each hook hit inside a save + after each return) executed in its own aborting child process; oracle after reopen: load_hard_state is the previous or the in-flight value, exactly the saved value once save returned, never None/err after a first save.",
+    "Process crash (abort) only; the ~30-byte write is not torn.",
+    PBT + "generated save sequences with exhaustive crash-point enumeration in child processes")
+add("C15", "dverif", "fault_enumeration",
+    "Generated apply/flush sequences (non-idempotent CAS chains) on the File and RocksDB state machines; every crash point (hook hits + after each op) executed in an aborting child; oracle: recovered last_applied a' <= N and re-applying (a', N] yields exactly model(1..N).",
+    "Process crash only; time-based checkpoints are driven explicitly (paused clock).",
+    PBT + "generated op sequences with exhaustive crash-point enumeration, exactly-once oracle vs reference model")
+add("C22", "dverif", "exploration",
+    "Command sequences with two generated chunkings applied to File (both chunkings) and RocksDB; oracle: apply results (index, succeeded), get/get_multi/scan_prefix equal the chunking-independent reference model; engines agree with each other.",
+    "Single-threaded apply; empty scan prefix excluded (engines document different behaviour).",
+    PBT + "differential: File vs RocksDB vs reference KV model, metamorphic over chunkings")
+add("C23", "dverif", "exploration",
+    "Histories of put/put-ttl/CAS/delete, virtual clock advance, cleanup, flush, restart{stop,close,drop,crash}, snapshot install on both engines; oracle (per-key model with +-1 s margin): TTL keys readable before the deadline, gone after cleanup past it, plain writes cancel TTLs, all across restarts and snapshot installs.",
+    "Virtual wall clock hook; verdicts inside +-1 s of a deadline are not judged.",
+    PBT + "stateful histories against a per-key TTL model under a virtual clock")
+add("C24", "dverif", "exploration",
+    "The exact NodeBuilder watch wiring (broadcast channel, WatchRegistry, WatchDispatcher, DefaultStateMachineHandler) over a real FileStateMachine; generated register/drop/drain/apply schedules with tiny queues; oracle per watcher: events map 1:1 to committed mutations in scope, strictly increasing revisions, no gap unless ended by CANCELED, nothing after CANCELED.",
+    "Single runtime thread with paused clock: register/dispatch races only in backlog form; gRPC stream layer not exercised.",
+    PBT + "stateful watcher schedules, per-watcher event-stream oracle against the mutation log")
+add("C25", "dverif", "exploration",
+    "Prefixes with carry/0xFF shapes, keys around the successor bound, scans interleaved with an apply at hook points; oracle: entries == model(1..=revision) filtered by starts_with, revision == last applied at rest.",
+    "Interleaving only at the instrumented yield/crash points.",
+    PBT + "generated keyspaces and interleavings, reference model filtered by prefix")
+add("C35", "dverif", "exploration",
+    "Real single-node engines (File/RocksDB) read through 10 paths (embedded cmd/fast paths, state machine direct, handler, gRPC fast path / cmd path); oracle: result[i] == model.get(keys[i]) positionally with duplicates, missing keys and empty values.",
+    "Single node; no concurrent writes during reads.",
+    PBT + "generated key lists, positional differential against a map model over every read path")
+add("C37", "dverif", "exploration",
+    "Writes with extreme byte strings / TTLs submitted through EmbeddedClient and the real gRPC server; a recording state machine captures what reaches apply; oracle: recorded commands == acknowledged submissions field by field (None vs Some(empty) preserved, TTL 0 = none).",
+    "Single node with File storage; TTL > 10 years clamped before the inner state machine.",
+    PBT + "round-trip: submitted command vs command observed at apply, over both client paths")
+
+NOT_YET = "check not built yet; to be decided by property-based testing per DESIGN.md §5 (no other technique substituted)"
 
 def hooks_commits():
     try:
